@@ -107,13 +107,14 @@ class C04(core.Check):
     rule = rule + ' ' + 'Embedded strings with literal 2- and 3-byte characters are probed with a byte on every address around them.'
     assumptions = ('a zero-length line strictly inside another line, and overlaps involving a muted line, are DONT_CARE',)
     chunk = 1500
+    no_image_reject = lambda self, c: c['meta'].get('kind') == 'REJECT'
     required_buckets = {b: 3 for b in ['geom:gap', 'geom:touching', 'geom:overlap-1-byte', 'geom:overlap-many',
                                        'geom:containment', 'geom:same-start', 'geom:identical', 'geom:zero-length-at-edge',
                                        'means:org', 'means:zone-org', 'means:memzone', 'means:zerountil', 'means:predefined',
                                        'means:align', 'means:created-zone', 'order:ascending', 'order:descending',
                                        'order:interleaved', 'overlap:non-adjacent', 'expect:REJECT', 'expect:ACCEPT',
                                        'output:bin', 'output:nobin', 'output:both', 'window-excludes-the-overlap',
-                                       'means:macro-with-non-byte-steps', 'means:embedded-string', 'means:zerountil-behind-the-cursor', 'means:include-from-inside-a-zone', 'embedded-string:two-byte-character', 'embedded-string:three-byte-character', 'means:global-relative-org', 'unselected-origin-before-bytes']}
+                                       'means:macro-with-non-byte-steps', 'means:embedded-string', 'means:zerountil-behind-the-cursor', 'means:include-from-inside-a-zone', 'means:configured-GLOBAL-with-origin-above-its-start', 'embedded-string:two-byte-character', 'embedded-string:three-byte-character', 'means:global-relative-org', 'unselected-origin-before-bytes']}
 
     def build(self, rng, items, means_list=None, order=None, mute=None, out_mode=None):
         """items: [(addr, len)]"""
@@ -350,7 +351,25 @@ class C04(core.Check):
                              'probes': ['steps'], 'step_limit': 300000}],
                    'meta': {'kind': kind_, 'M': {str(k): v for k, v in M_.items()}, 'end': end_,
                             'intervals': [[a_, 1] for a_ in sorted(M_)], 'out_mode': 'bin'},
-                   'tags': sorted({'means:include-from-inside-a-zone', 'expect:' + kind_, 'output:bin', 'order:ascending'})}
+                   'tags': sorted({'means:include-from-inside-a-zone', 'means:configured-GLOBAL-with-origin-above-its-start', 'expect:' + kind_, 'output:bin', 'order:ascending'})}
+        # GLOBAL defined by the configuration together with a default origin above its start: the first bytes go to the origin
+        for gs_, org_ in ((0x100, 0x120), (0x10, 0x18), (0, 0x40)):
+            isa_o = gen_prog.layout_isa(16, global_zone=(gs_, 0x7FFF), origin=org_)
+            fn_o, text_o = isamod.render_isa(isa_o, 'json')
+            for body, kind_, M_ in (
+                    (['.byte $A1, $A2', f'.org {gs_}', '.byte $B1'], 'ACCEPT', {org_: 0xA1, org_ + 1: 0xA2, gs_: 0xB1}),
+                    (['.byte $A1, $A2', f'.org {org_ + 1}', '.byte $B1'], 'REJECT', {org_: 0xA1, org_ + 1: 0xA2}),
+                    (['.byte $A1', f'.org {org_ - gs_} "GLOBAL"', '.byte $B1'], 'REJECT', {org_: 0xA1}),
+                    (['.byte $A1', f'.org {org_ - gs_ + 1} "GLOBAL"', '.byte $B1'], 'ACCEPT', {org_: 0xA1, org_ + 1: 0xB1}),
+                    ([f'.org {org_ + 2}', '.byte $B1', f'.org {org_}', '.byte 1, 2, 3'], 'REJECT', {org_ + 2: 0xB1}),
+                    (['nop', 'c04_here:', '.2byte c04_here'], 'ACCEPT', {org_: 0xEA, org_ + 1: (org_ + 1) >> 8, org_ + 2: (org_ + 1) & 255})):
+                end_ = org_ + 8
+                yield {'runs': [{'files': {fn_o: text_o, 'p.asm': '\n'.join(body) + '\n'},
+                                 'argv': ['compile', '-c', fn_o, 'p.asm', '-o', 'out.bin', '-e', str(end_)],
+                                 'probes': ['steps'], 'step_limit': 300000}],
+                       'meta': {'kind': kind_, 'M': {str(k): v for k, v in M_.items()}, 'end': end_,
+                                'intervals': [[a_, 1] for a_ in sorted(M_)], 'out_mode': 'bin'},
+                       'tags': sorted({'means:configured-GLOBAL-with-origin-above-its-start', 'expect:' + kind_, 'output:bin', 'order:ascending'})}
         # GLOBAL redefined with a non-zero start: '.org v "GLOBAL"' is v above that start, '.org a' is absolute
         for gs in (0x100, 0x10):
             isa_g = gen_prog.layout_isa(16, global_zone=(gs, 0x7FFF), origin=gs)
